@@ -163,6 +163,15 @@ PREAMBLE = (
     "        return _vw_call(fn, args, kwargs, depth - 1)\n"
     "    return fn(*args, **kwargs)\n"
     "\n"
+    "class _VwShadow:\n"
+    "    pass\n"
+    "\n"
+    "def _vw_call_shadowed(fn, args, kwargs):\n"
+    "    # a caller whose *local* names coincide with names of the world: a reference is resolved against\n"
+    "    # the module it belongs to, never against the locals of whoever happens to issue the call\n"
+    "    VwSame = Warning = VwLoc = VwD0 = VwD1 = VwD2 = VwD3 = VwD4 = VwE0 = VwE1 = VwR0 = VwR1 = _VwShadow\n"
+    "    return fn(*args, **kwargs)\n"
+    "\n"
 )
 
 
